@@ -51,19 +51,40 @@ def types(ctx):
 DECLS = "fn verif_big() -> float = %s\n" % flit(1.7976931348623157e308)
 
 
-def body(ann, xs, ops, has_hash):
+def body(ann, xs, ops, has_hash, lit_forms=False):
     names = "xyz"
     lines = ["let %s: %s = %s" % (n, ann, e) for n, e in zip(names, xs)]
-    for a in names:
-        for b_ in names:
-            for op in ops:
-                lines.append('print(if %s %s %s { "1" } else { "0" })' % (a, op, b_))
-            lines.append('print(" ")')
+    forms = ["vv"] + (["vl", "lv"] if lit_forms else [])
+    for f in forms:
+        for i, a in enumerate(names):
+            for j, b_ in enumerate(names):
+                A = a if f[0] == "v" else xs[i]
+                B = b_ if f[1] == "v" else xs[j]
+                for op in ops:
+                    lines.append('print(if %s %s %s { "1" } else { "0" })' % (A, op, B))
+                lines.append('print(" ")')
+        lines.append('print("#")')
     if has_hash:
         for a in names:
             lines.append('print("|" .. Hash.hash(%s))' % a)
     lines.append('println("")')
     return "\n".join(lines)
+
+
+def laws_all(text, xs, has_ord, has_hash):
+    """the relation table is printed once per operand form (variables, variable-literal,
+    literal-variable); every table must satisfy the laws and all tables must agree"""
+    head, _, hashes = text.strip("\n").partition("|")
+    tables = [t for t in head.split("#") if t.strip() != ""]
+    if not tables:
+        return "no relation table in %r" % text[:80]
+    for n, t in enumerate(tables):
+        w = laws(t + ("|" + hashes if hashes else ""), xs, has_ord, has_hash)
+        if w:
+            return ("[operand form %d] " % n) + w
+        if t.split() != tables[0].split():
+            return "operand form %d disagrees with the variable form: %s vs %s" % (n, t.split(), tables[0].split())
+    return None
 
 
 def laws(text, xs, has_ord, has_hash):
@@ -151,8 +172,8 @@ def run(ctx):
             def exp(obs, xs=xs, has_ord=has_ord, has_hash=has_hash):
                 if obs[0] != "out":
                     return "no table: %r" % (obs[:3],)
-                return laws(obs[1], xs, has_ord, has_hash)
-            cases.append(Case("type=%s x=%s y=%s z=%s" % (name, xs[0], xs[1], xs[2]), body(ann, xs, ops, has_hash), exp, DECLS))
+                return laws_all(obs[1], xs, has_ord, has_hash)
+            cases.append(Case("type=%s x=%s y=%s z=%s" % (name, xs[0], xs[1], xs[2]), body(ann, xs, ops, has_hash, name in ("int", "float", "string", "bool")), exp, DECLS))
     nruns, observed, failures = run_cases(ctx, "c24", cases, lambda c: "C24 " + c.key, per_prog=60)
     ctx.coverage(
         evaluations=nruns,
